@@ -21,7 +21,7 @@ use zipora::memory::cache::CacheAlignedVec;
 use zipora::memory::{MmapVec, MmapVecConfig};
 
 const HEADER: &str = r#"From ZV.Common Require Import Base Run.
-From ZV.C10 Require Import Model.
+From ZV.C10 Require Import Model ModelValVec32 ModelCases.
 Open Scope N_scope.
 "#;
 
@@ -33,7 +33,10 @@ thread_local! {
     static DROPS: RefCell<Vec<u64>> = RefCell::new(vec![]);
     static LIVE: RefCell<Vec<i64>> = RefCell::new(vec![]);
     static WILD: RefCell<u64> = RefCell::new(0); // drops of ids never created (garbage read as an element)
+    static MUTE: RefCell<bool> = RefCell::new(false); // drops performed by the harness itself: counted, not logged
 }
+/// run `f` (a drop of something the harness owns) without writing to the drop log of the operation
+fn quiet<Rt>(f: impl FnOnce() -> Rt) -> Rt { MUTE.with(|m| *m.borrow_mut() = true); let r = f(); MUTE.with(|m| *m.borrow_mut() = false); r }
 struct El { id: u64 }
 const MAX_ID: u64 = 1 << 22; // ids are handed out consecutively per history; anything above is garbage read as an element
 fn el(id: u64) -> El {
@@ -48,7 +51,7 @@ impl Drop for El {
     fn drop(&mut self) {
         if self.id == PH { return; }
         if self.id >= MAX_ID { WILD.with(|w| *w.borrow_mut() += 1); return; }
-        DROPS.with(|d| d.borrow_mut().push(self.id));
+        if !MUTE.with(|m| *m.borrow()) { DROPS.with(|d| d.borrow_mut().push(self.id)); }
         LIVE.with(|l| { let mut l = l.borrow_mut(); let i = self.id as usize;
             if i < l.len() { l[i] -= 1; } else { WILD.with(|w| *w.borrow_mut() += 1); } });
     }
@@ -57,6 +60,7 @@ fn reset_counters() {
     DROPS.with(|d| d.borrow_mut().clear());
     LIVE.with(|l| l.borrow_mut().clear());
     WILD.with(|w| *w.borrow_mut() = 0);
+    MUTE.with(|m| *m.borrow_mut() = false);
 }
 fn take_drops() -> Vec<u64> { DROPS.with(|d| std::mem::take(&mut *d.borrow_mut())) }
 /// live instances per id must equal the occurrences in `held` (ids below `next_id`)
@@ -77,7 +81,16 @@ fn live_mismatch<'a>(held: impl Iterator<Item = &'a u64>, next_id: u64) -> Optio
     })
 }
 
-struct Ctx { sum: Summary, shards: CoqShards, budget: usize }
+#[derive(Clone, Copy, PartialEq)]
+enum Coq { Never, Budget, Always }
+struct Ctx { sum: Summary, shards: CoqShards, budgets: std::collections::BTreeMap<&'static str, (usize, usize)> }
+impl Ctx {
+    /// one more Coq case for `cell`, if its share of the Coq budget is not used up
+    fn room(&mut self, cell: &'static str) -> bool {
+        let e = self.budgets.entry(cell).or_insert((0, 0));
+        if e.0 < e.1 { e.0 += 1; true } else { false }
+    }
+}
 
 fn zlist(xs: &[i128]) -> String { coq_z_list(xs.iter().copied()) }
 fn nlist(xs: &[u64]) -> String { coq_n_list(xs.iter().map(|&x| x as u128)) }
@@ -92,7 +105,7 @@ fn parse_ops(v: &Value) -> Vec<Vec<u64>> {
 // ---------------------------------------------------------------------------------------------
 fn enc_opt(o: Option<u64>) -> Vec<i128> { match o { None => vec![1], Some(x) => vec![2, x as i128] } }
 
-fn ring_history(cx: &mut Ctx, cap0: u64, ops: &[Vec<u64>], force: bool) {
+fn ring_history(cx: &mut Ctx, cap0: u64, ops: &[Vec<u64>], coq: Coq) {
     let cell = "AutoGrowCircularQueue";
     cx.sum.eval(cell, &format!("ring {} {:?}", cap0, ops), ops.len() >= 3);
     let cj = json!({"cell": "ring", "cap": cap0, "ops": ops});
@@ -174,15 +187,15 @@ fn ring_history(cx: &mut Ctx, cap0: u64, ops: &[Vec<u64>], force: bool) {
         else if let Some(p) = live_mismatch([].iter(), next_id) { cx.sum.fail(cell, None, cj.clone(), &format!("after Drop of the queue: {}", p)); failed = true; }
     } else { std::mem::forget(q); }
     if wrapped_growth { cx.sum.dist("ring_growth_while_wrapped"); }
-    if !failed && (force || cx.shards.len() < cx.budget) {
-        cx.shards.push(format!("CRing {} [{}] [{}]", cap0, coq_ops.join("; "), expect.join("; ")), cj);
+    if !failed && (coq == Coq::Always || (coq == Coq::Budget && cx.room(cell))) {
+        cx.shards.push(format!("C0 (CRing {} [{}] [{}])", cap0, coq_ops.join("; "), expect.join("; ")), cj);
     }
 }
 
 // ---------------------------------------------------------------------------------------------
 // FixedCircularQueue<El, N>   ops: [0] push_back  [1] pop_front  [5] clear  [6] front  [7] back
 // ---------------------------------------------------------------------------------------------
-fn fixed_history_n<const N: usize>(cx: &mut Ctx, ops: &[Vec<u64>], force: bool) {
+fn fixed_history_n<const N: usize>(cx: &mut Ctx, ops: &[Vec<u64>], coq: Coq) {
     let cell = "FixedCircularQueue";
     cx.sum.eval(cell, &format!("fixed {} {:?}", N, ops), ops.len() >= 3);
     let cj = json!({"cell": "fixed", "cap": N, "ops": ops});
@@ -234,11 +247,11 @@ fn fixed_history_n<const N: usize>(cx: &mut Ctx, ops: &[Vec<u64>], force: bool) 
         if let Err(p) = r { cx.sum.fail(cell, None, cj.clone(), &format!("Drop panicked: {}", p)); failed = true; }
         else if let Some(p) = live_mismatch([].iter(), next_id) { cx.sum.fail(cell, None, cj.clone(), &format!("after Drop of the queue: {}", p)); failed = true; }
     } else { std::mem::forget(q); }
-    if !failed && (force || cx.shards.len() < cx.budget) {
-        cx.shards.push(format!("CFixed {} [{}] [{}]", N, coq_ops.join("; "), expect.join("; ")), cj);
+    if !failed && (coq == Coq::Always || (coq == Coq::Budget && cx.room(cell))) {
+        cx.shards.push(format!("C0 (CFixed {} [{}] [{}])", N, coq_ops.join("; "), expect.join("; ")), cj);
     }
 }
-fn fixed_history(cx: &mut Ctx, n: u64, ops: &[Vec<u64>], force: bool) {
+fn fixed_history(cx: &mut Ctx, n: u64, ops: &[Vec<u64>], force: Coq) {
     match n { 1 => fixed_history_n::<1>(cx, ops, force), 2 => fixed_history_n::<2>(cx, ops, force), 3 => fixed_history_n::<3>(cx, ops, force),
               4 => fixed_history_n::<4>(cx, ops, force), 7 => fixed_history_n::<7>(cx, ops, force), 8 => fixed_history_n::<8>(cx, ops, force),
               9 => fixed_history_n::<9>(cx, ops, force), _ => fixed_history_n::<16>(cx, ops, force) }
@@ -250,7 +263,7 @@ fn fixed_history(cx: &mut Ctx, n: u64, ops: &[Vec<u64>], force: bool) {
 //  [8,n] reserve  [9,i] get  [10] clone, drop original  [11,i] set  [12,n] truncate  [13,a,b] fill_range
 //  [14,k] pop_bulk  [15,k] copy_from (replace contents by k new values)  [16,k] push_n
 // ---------------------------------------------------------------------------------------------
-fn fastvec_history(cx: &mut Ctx, cap0: u64, ops: &[Vec<u64>], force: bool) {
+fn fastvec_history(cx: &mut Ctx, cap0: u64, ops: &[Vec<u64>], coq: Coq) {
     let cell = "FastVec<El>";
     cx.sum.eval(cell, &format!("fastvec {} {:?}", cap0, ops), ops.len() >= 3);
     let cj = json!({"cell": "fastvec", "cap": cap0, "ops": ops});
@@ -314,8 +327,8 @@ fn fastvec_history(cx: &mut Ctx, cap0: u64, ops: &[Vec<u64>], force: bool) {
         if let Err(p) = r { cx.sum.fail(cell, None, cj.clone(), &format!("Drop panicked: {}", p)); failed = true; }
         else if let Some(p) = live_mismatch([].iter(), next_id) { cx.sum.fail(cell, None, cj.clone(), &format!("after Drop of the vector: {}", p)); failed = true; }
     } else { std::mem::forget(v); }
-    if !failed && (force || cx.shards.len() < cx.budget) {
-        cx.shards.push(format!("CVec {} [{}] [{}]", cap0, coq_ops.join("; "), expect.join("; ")), cj);
+    if !failed && (coq == Coq::Always || (coq == Coq::Budget && cx.room(cell))) {
+        cx.shards.push(format!("C0 (CVec {} [{}] [{}])", cap0, coq_ops.join("; "), expect.join("; ")), cj);
     }
 }
 
@@ -348,6 +361,17 @@ trait VecApi<T: Elem>: Sized {
     fn pop_bulk(&mut self, _k: usize) -> R<T> { R::Unsup }
     fn copy_from(&mut self, _xs: Vec<T>) -> R<T> { R::Unsup }
     fn push_n(&mut self, _k: usize, _x: T) -> R<T> { R::Unsup }
+    fn capacity(&self) -> usize { 0 }
+    /// M+S cells: the cell name under which Coq cases are budgeted, the head of the Coq case (constructor + initial
+    /// parameters) and the Coq term of one operation (`vals` = the values created for it, `cap_after` = capacity after
+    /// the operation); None = no mechanism model for this cell / operation
+    fn coq_cell() -> Option<&'static str> { None }
+    fn coq_head(_cap0: usize, _cap_init: usize) -> String { String::new() }
+    fn coq_op(_code: u64, _a: usize, _b: usize, _vals: &[u64], _cap_after: usize) -> Option<String> { None }
+}
+fn enc_r<T: Elem>(r: &R<T>) -> Vec<i128> {
+    match r { R::Unsup => vec![], R::Unit => vec![0], R::Refused => vec![-1], R::Val(None) => vec![1], R::Val(Some(x)) => vec![2, x.id() as i128],
+              R::List(l) => { let mut v = vec![3]; v.extend(l.iter().map(|x| x.id() as i128)); v } }
 }
 fn unit<T, E>(r: Result<(), E>) -> R<T> { match r { Ok(()) => R::Unit, Err(_) => R::Refused } }
 
@@ -376,10 +400,18 @@ impl<T: Elem + Clone> VecApi<T> for ValVec32<T> {
     fn push(&mut self, x: T) -> R<T> { unit(ValVec32::push(self, x)) }
     fn pop(&mut self) -> R<T> { R::Val(ValVec32::pop(self)) }
     fn clear(&mut self) -> R<T> { ValVec32::clear(self); R::Unit }
-    fn extend(&mut self, xs: Vec<T>) -> R<T> { unit(self.extend_from_slice(&xs)) }
+    fn extend(&mut self, xs: Vec<T>) -> R<T> { let r = unit(self.extend_from_slice(&xs)); quiet(move || drop(xs)); r }
     fn reserve(&mut self, n: usize) -> R<T> { unit(ValVec32::reserve(self, n as u32)) }
     fn clone_self(&self) -> Option<Self> { Some(self.clone()) }
     fn set(&mut self, i: usize, x: T) -> R<T> { unit(ValVec32::set(self, i as u32, x)) }
+    fn capacity(&self) -> usize { ValVec32::capacity(self) as usize }
+    fn coq_cell() -> Option<&'static str> { Some(if T::COUNTED { "ValVec32<El>" } else { "ValVec32<T: Copy>" }) }
+    fn coq_head(cap0: usize, cap_init: usize) -> String { format!("CVV {} {} {}", coq_bool(T::COUNTED), cap0, cap_init) }
+    fn coq_op(code: u64, a: usize, _b: usize, vals: &[u64], cap_after: usize) -> Option<String> {
+        Some(match code { 0 => format!("TW (WPush {})", vals[0]), 1 => "TW WPop".into(), 5 => "TW WClear".into(), 7 => format!("TW (WExtend {})", nlist(vals)),
+                          8 => format!("TW (WReserve {})", a), 9 => format!("TW (WGet {})", a), 10 => format!("TWClone {}", cap_after),
+                          11 => format!("TW (WSet {} {})", a, vals[0]), _ => return None })
+    }
 }
 struct VV64(ValVec32<u64>);
 impl VecApi<u64> for VV64 {
@@ -395,6 +427,14 @@ impl VecApi<u64> for VV64 {
     fn clone_self(&self) -> Option<Self> { Some(VV64(self.0.clone())) }
     fn set(&mut self, i: usize, x: u64) -> R<u64> { unit(self.0.set(i as u32, x)) }
     fn push_n(&mut self, k: usize, x: u64) -> R<u64> { unit(self.0.push_n_copy(k as u32, x)) }
+    fn capacity(&self) -> usize { self.0.capacity() as usize }
+    fn coq_cell() -> Option<&'static str> { Some("ValVec32<u64>") }
+    fn coq_head(cap0: usize, cap_init: usize) -> String { format!("CVV false {} {}", cap0, cap_init) }
+    fn coq_op(code: u64, a: usize, _b: usize, vals: &[u64], cap_after: usize) -> Option<String> {
+        Some(match code { 0 => format!("TW (WPushPanic {})", vals[0]), 1 => "TW WPop".into(), 5 => "TW WClear".into(), 7 => format!("TW (WExtendCopy {})", nlist(vals)),
+                          8 => format!("TW (WReserve {})", a), 9 => format!("TW (WGet {})", a), 10 => format!("TWClone {}", cap_after),
+                          11 => format!("TW (WSet {} {})", a, vals[0]), 16 => format!("TW (WPushN {} {})", a.min(200), vals[0]), _ => return None })
+    }
 }
 impl<T: Elem> VecApi<T> for CacheAlignedVec<T> {
     fn create(cap: usize) -> Self { if cap == 0 { CacheAlignedVec::new() } else { CacheAlignedVec::with_capacity(cap).unwrap() } }
@@ -462,58 +502,76 @@ impl VecApi<u64> for Mm {
         if r.is_some() { R::Unit } else { R::Refused } }
 }
 
-fn generic_history<T: Elem, V: VecApi<T>>(cx: &mut Ctx, cell: &str, tag: &str, cap0: u64, ops: &[Vec<u64>]) {
+fn generic_history<T: Elem, V: VecApi<T>>(cx: &mut Ctx, cell: &str, tag: &str, cap0: u64, ops: &[Vec<u64>], coq: Coq) {
     cx.sum.eval(cell, &format!("{} {} {:?}", tag, cap0, ops), ops.len() >= 3);
-    cx.sum.cell_status(cell, "S-only");
+    cx.sum.cell_status(cell, if V::coq_cell().is_some() { "M+S" } else { "S-only" });
     let cj = json!({"cell": tag, "cap": cap0, "ops": ops});
     reset_counters();
     let mut next_id: u64 = 0;
     let mut v = match guarded(|| V::create(cap0 as usize)) { Ok(v) => v, Err(p) => { cx.sum.fail(cell, None, cj, &format!("constructor panicked: {}", p)); return; } };
+    let cap_init = v.capacity();
     let mut shadow: Vec<u64> = vec![];
     let mut failed = false;
+    // the history as the mechanism model sees it (M+S cells only)
+    let mut coq_ok = V::coq_cell().is_some();
+    let mut coq_ops: Vec<String> = vec![];
+    let mut expect: Vec<String> = vec![];
     for o in ops {
         let code = op_arg(o, 0);
         let a = op_arg(o, 1).min(400) as usize;
         let b = op_arg(o, 2).min(400) as usize;
         let mut problem: Option<String> = None;
         let mut fresh = || { let id = next_id; next_id += 1; id };
+        let mut vals: Vec<u64> = vec![];        // values created for this operation
+        let mut ret: Vec<i128> = vec![];        // the return value in the encoding of Model.enc_ret ([] = not supported)
+        let mut drops_o: Option<Vec<u64>> = None; // destructors run by the operation itself
+        take_drops();
         let r = guarded(|| {
-            macro_rules! expect_unit { ($r:expr, $what:expr, $then:expr) => { match $r { R::Unsup => {}, R::Unit => { $then; }, _ => problem = Some(format!("{} refused", $what)) } } }
+            macro_rules! expect_unit { ($r:expr, $what:expr, $then:expr) => {{ let r = $r; drops_o = Some(take_drops()); ret = enc_r(&r);
+                match r { R::Unsup => {}, R::Unit => { $then; }, _ => problem = Some(format!("{} refused", $what)) } }} }
             match code {
-                0 => { let id = fresh(); let x = T::make(id); let idv = x.id();
+                0 => { let id = fresh(); let x = T::make(id); let idv = x.id(); vals.push(idv);
                        let full = v.fixed_capacity().map(|c| shadow.len() >= c).unwrap_or(false);
-                       match v.push(x) { R::Unsup => {}, R::Unit => { if full { problem = Some("push beyond the fixed capacity accepted".into()); } shadow.push(idv); }
-                                         _ => if !full { problem = Some("push refused".into()); } } }
-                1 => match v.pop() { R::Unsup => {}, R::Val(g) => { let g = g.map(|x| x.id()); let w = shadow.pop(); if g != w { problem = Some(format!("pop returned {:?}, a Vec returns {:?}", g, w)); } }, _ => problem = Some("pop refused".into()) },
-                2 => { let id = fresh(); let x = T::make(id); let idv = x.id();
-                       match v.insert(a, x) { R::Unsup => {}, R::Unit => { if a > shadow.len() { problem = Some(format!("insert at {} accepted with len {}", a, shadow.len())); } else { shadow.insert(a, idv); } }
-                                              _ => if a <= shadow.len() { problem = Some(format!("insert at {} refused with len {}", a, shadow.len())); } } }
-                3 => match v.remove(a) { R::Unsup => {}, R::Val(g) => { let g = g.map(|x| x.id()); let w = if a < shadow.len() { Some(shadow.remove(a)) } else { None }; if g != w { problem = Some(format!("remove({}) returned {:?}, a Vec returns {:?}", a, g, w)); } }
-                                         _ => if a < shadow.len() { problem = Some(format!("remove({}) refused with len {}", a, shadow.len())); } },
-                4 => { let id = fresh(); let x = T::make(id); let idv = x.id(); expect_unit!(v.resize(a, x), "resize", shadow.resize(a, idv)) }
+                       let r = v.push(x); drops_o = Some(take_drops()); ret = enc_r(&r);
+                       match r { R::Unsup => {}, R::Unit => { if full { problem = Some("push beyond the fixed capacity accepted".into()); } shadow.push(idv); }
+                                 _ => if !full { problem = Some("push refused".into()); } } }
+                1 => { let r = v.pop(); drops_o = Some(take_drops()); ret = enc_r(&r);
+                       match r { R::Unsup => {}, R::Val(g) => { let g = quiet(move || g.map(|x| x.id())); let w = shadow.pop(); if g != w { problem = Some(format!("pop returned {:?}, a Vec returns {:?}", g, w)); } }, _ => problem = Some("pop refused".into()) } }
+                2 => { let id = fresh(); let x = T::make(id); let idv = x.id(); vals.push(idv);
+                       let r = v.insert(a, x); drops_o = Some(take_drops()); ret = enc_r(&r);
+                       match r { R::Unsup => {}, R::Unit => { if a > shadow.len() { problem = Some(format!("insert at {} accepted with len {}", a, shadow.len())); } else { shadow.insert(a, idv); } }
+                                 _ => if a <= shadow.len() { problem = Some(format!("insert at {} refused with len {}", a, shadow.len())); } } }
+                3 => { let r = v.remove(a); drops_o = Some(take_drops()); ret = enc_r(&r);
+                       match r { R::Unsup => {}, R::Val(g) => { let g = quiet(move || g.map(|x| x.id())); let w = if a < shadow.len() { Some(shadow.remove(a)) } else { None }; if g != w { problem = Some(format!("remove({}) returned {:?}, a Vec returns {:?}", a, g, w)); } }
+                                 _ => if a < shadow.len() { problem = Some(format!("remove({}) refused with len {}", a, shadow.len())); } } }
+                4 => { let id = fresh(); let x = T::make(id); let idv = x.id(); vals.push(idv); expect_unit!(v.resize(a, x), "resize", shadow.resize(a, idv)) }
                 5 => expect_unit!(v.clear(), "clear", shadow.clear()),
                 6 => expect_unit!(v.shrink(), "shrink_to_fit", ()),
-                7 => { let k = a.min(200); let xs: Vec<T> = (0..k).map(|_| T::make(fresh())).collect(); let idv: Vec<u64> = xs.iter().map(|x| x.id()).collect();
+                7 => { let k = a.min(200); let xs: Vec<T> = (0..k).map(|_| T::make(fresh())).collect(); let idv: Vec<u64> = xs.iter().map(|x| x.id()).collect(); vals = idv.clone();
                        expect_unit!(v.extend(xs), "extend", shadow.extend(idv)) }
                 8 => expect_unit!(v.reserve(a), "reserve", ()),
-                9 => { let g = v.get(a); if g != shadow.get(a).copied() { problem = Some(format!("get({}) = {:?}, a Vec has {:?}", a, g, shadow.get(a))); } }
-                10 => { if let Some(c) = v.clone_self() { let old = std::mem::replace(&mut v, c); drop(old); } }
-                11 => { let id = fresh(); let x = T::make(id); let idv = x.id();
-                        match v.set(a, x) { R::Unsup => {}, R::Unit => { if a >= shadow.len() { problem = Some(format!("set({}) accepted with len {}", a, shadow.len())); } else { shadow[a] = idv; } }
-                                            _ => if a < shadow.len() { problem = Some(format!("set({}) refused with len {}", a, shadow.len())); } } }
+                9 => { let g = v.get(a); ret = enc_opt(g); if g != shadow.get(a).copied() { problem = Some(format!("get({}) = {:?}, a Vec has {:?}", a, g, shadow.get(a))); } }
+                10 => { if let Some(c) = v.clone_self() { let old = std::mem::replace(&mut v, c); drop(old); ret = vec![0]; } }
+                11 => { let id = fresh(); let x = T::make(id); let idv = x.id(); vals.push(idv);
+                        let r = v.set(a, x); drops_o = Some(take_drops()); ret = enc_r(&r);
+                        match r { R::Unsup => {}, R::Unit => { if a >= shadow.len() { problem = Some(format!("set({}) accepted with len {}", a, shadow.len())); } else { shadow[a] = idv; } }
+                                  _ => if a < shadow.len() { problem = Some(format!("set({}) refused with len {}", a, shadow.len())); } } }
                 12 => expect_unit!(v.truncate(a), "truncate", shadow.truncate(a)),
-                13 => { let id = fresh(); let x = T::make(id); let idv = x.id();
-                        match v.fill_range(a, b, x) { R::Unsup => {}, R::Unit => { if b > shadow.len() { problem = Some(format!("fill_range({}, {}) accepted with len {}", a, b, shadow.len())); } else if a < b { for s in &mut shadow[a..b] { *s = idv; } } }
-                                                      _ => if a <= b && b <= shadow.len() { problem = Some(format!("fill_range({}, {}) refused with len {}", a, b, shadow.len())); } } }
-                14 => match v.pop_bulk(a) { R::Unsup => {}, R::List(g) => { let g: Vec<u64> = g.iter().map(|x| x.id()).collect();
+                13 => { let id = fresh(); let x = T::make(id); let idv = x.id(); vals.push(idv);
+                        let r = v.fill_range(a, b, x); drops_o = Some(take_drops()); ret = enc_r(&r);
+                        match r { R::Unsup => {}, R::Unit => { if b > shadow.len() { problem = Some(format!("fill_range({}, {}) accepted with len {}", a, b, shadow.len())); } else if a < b { for s in &mut shadow[a..b] { *s = idv; } } }
+                                  _ => if a <= b && b <= shadow.len() { problem = Some(format!("fill_range({}, {}) refused with len {}", a, b, shadow.len())); } } }
+                14 => { let r = v.pop_bulk(a); drops_o = Some(take_drops()); ret = enc_r(&r);
+                        match r { R::Unsup => {}, R::List(g) => { let g: Vec<u64> = g.iter().map(|x| x.id()).collect();
                                                 if a > shadow.len() { problem = Some(format!("pop_bulk({}) accepted with len {}", a, shadow.len())); } else { let w = shadow.split_off(shadow.len() - a); if g != w { problem = Some(format!("pop_bulk({}) returned {:?}, the tail of a Vec is {:?}", a, g, w)); } } }
-                                            _ => if a <= shadow.len() { problem = Some(format!("pop_bulk({}) refused with len {}", a, shadow.len())); } },
-                15 => { let k = a.min(200); let xs: Vec<T> = (0..k).map(|_| T::make(fresh())).collect(); let idv: Vec<u64> = xs.iter().map(|x| x.id()).collect();
+                                  _ => if a <= shadow.len() { problem = Some(format!("pop_bulk({}) refused with len {}", a, shadow.len())); } } }
+                15 => { let k = a.min(200); let xs: Vec<T> = (0..k).map(|_| T::make(fresh())).collect(); let idv: Vec<u64> = xs.iter().map(|x| x.id()).collect(); vals = idv.clone();
                         expect_unit!(v.copy_from(xs), "copy_from", shadow = idv) }
-                _ => { let k = a.min(200); let id = fresh(); let x = T::make(id); let idv = x.id();
+                _ => { let k = a.min(200); let id = fresh(); let x = T::make(id); let idv = x.id(); vals.push(idv);
                        expect_unit!(v.push_n(k, x), "push_n", shadow.extend(std::iter::repeat(idv).take(k))) }
             }
         });
+        let late = take_drops(); let mut drops = drops_o.unwrap_or(late); drops.sort();
         if let Err(p) = r { cx.sum.fail(cell, None, cj.clone(), &format!("op {:?} panicked: {}", o, p)); failed = true; break; }
         if problem.is_none() { match guarded(|| (v.len(), v.ids(), v.get(shadow.len()), v.get(shadow.len() + 9))) {
             Err(p) => problem = Some(format!("reading back panicked: {}", p)),
@@ -521,26 +579,79 @@ fn generic_history<T: Elem, V: VecApi<T>>(cx: &mut Ctx, cell: &str, tag: &str, c
                                            else if past.is_some() || past9.is_some() { problem = Some("an index past the end was not refused".into()); } } } }
         if problem.is_none() && T::COUNTED { problem = live_mismatch(shadow.iter(), next_id); }
         if let Some(p) = problem { cx.sum.fail(cell, None, cj.clone(), &format!("after op {:?}: {}", o, p)); failed = true; break; }
+        if coq_ok {
+            let cap_now = v.capacity();
+            match (ret.is_empty(), V::coq_op(code.min(16), a, b, &vals, cap_now)) {
+                (false, Some(t)) => { coq_ops.push(t);
+                    let mut e = ret; e.push(-7); if T::COUNTED { e.extend(drops.iter().map(|&x| x as i128)); }
+                    e.extend([-8, v.len() as i128, cap_now as i128]); expect.push(zlist(&e)); }
+                _ => coq_ok = false,   // an operation outside the model: this history is not replayed in Coq
+            }
+        }
     }
     if failed { std::mem::forget(v); return; }
     let r = guarded(move || drop(v));
-    if let Err(p) = r { cx.sum.fail(cell, None, cj, &format!("Drop panicked: {}", p)); }
-    else if T::COUNTED { if let Some(p) = live_mismatch([].iter(), next_id) { cx.sum.fail(cell, None, cj, &format!("after Drop of the vector: {}", p)); } }
+    if let Err(p) = r { cx.sum.fail(cell, None, cj, &format!("Drop panicked: {}", p)); return; }
+    else if T::COUNTED { if let Some(p) = live_mismatch([].iter(), next_id) { cx.sum.fail(cell, None, cj, &format!("after Drop of the vector: {}", p)); return; } }
+    if let (true, Some(bc)) = (coq_ok, V::coq_cell()) {
+        if coq == Coq::Always || (coq == Coq::Budget && cx.room(bc)) {
+            cx.shards.push(format!("{} [{}] [{}]", V::coq_head(cap0 as usize, cap_init), coq_ops.join("; "), expect.join("; ")), cj);
+        }
+    }
 }
 
-fn vec_cell(cx: &mut Ctx, tag: &str, cap0: u64, ops: &[Vec<u64>]) {
+fn vec_cell(cx: &mut Ctx, tag: &str, cap0: u64, ops: &[Vec<u64>], coq: Coq) {
     match tag {
-        "fastvec_u64" => generic_history::<u64, FastVec<u64>>(cx, "FastVec<u64>", tag, cap0, ops),
-        "fastvec_u8" => generic_history::<u8, FastVec<u8>>(cx, "FastVec<u8>", tag, cap0, ops),
-        "valvec32_el" => generic_history::<El, ValVec32<El>>(cx, "ValVec32<El>", tag, cap0, ops),
-        "valvec32_u64" => generic_history::<u64, VV64>(cx, "ValVec32<u64>", tag, cap0, ops),
-        "cachevec_el" => generic_history::<El, CacheAlignedVec<El>>(cx, "CacheAlignedVec<El>", tag, cap0, ops),
-        "cachevec_u8" => generic_history::<u8, CacheAlignedVec<u8>>(cx, "CacheAlignedVec<u8>", tag, cap0, ops),
-        "layoutvec_u64" => generic_history::<u64, Layout64>(cx, "cache_layout::CacheAlignedVec<u64>", tag, cap0, ops),
-        "bumpvec_el" => generic_history::<El, Bump>(cx, "BumpVec<El>", tag, cap0, ops),
-        "mmapvec_u64" => generic_history::<u64, Mm>(cx, "MmapVec<u64>", tag, cap0, ops),
+        "fastvec_u64" => generic_history::<u64, FastVec<u64>>(cx, "FastVec<u64>", tag, cap0, ops, coq),
+        "fastvec_u8" => generic_history::<u8, FastVec<u8>>(cx, "FastVec<u8>", tag, cap0, ops, coq),
+        "valvec32_el" => generic_history::<El, ValVec32<El>>(cx, "ValVec32<El>", tag, cap0, ops, coq),
+        "valvec32_u64" => generic_history::<u64, VV64>(cx, "ValVec32<u64>", tag, cap0, ops, coq),
+        "cachevec_el" => generic_history::<El, CacheAlignedVec<El>>(cx, "CacheAlignedVec<El>", tag, cap0, ops, coq),
+        "cachevec_u8" => generic_history::<u8, CacheAlignedVec<u8>>(cx, "CacheAlignedVec<u8>", tag, cap0, ops, coq),
+        "layoutvec_u64" => generic_history::<u64, Layout64>(cx, "cache_layout::CacheAlignedVec<u64>", tag, cap0, ops, coq),
+        "bumpvec_el" => generic_history::<El, Bump>(cx, "BumpVec<El>", tag, cap0, ops, coq),
+        "mmapvec_u64" => generic_history::<u64, Mm>(cx, "MmapVec<u64>", tag, cap0, ops, coq),
         _ => {}
     }
+}
+
+/// ValVec32 at the u32 limits, on zero-sized elements (no memory needed): a slice longer than u32::MAX must be refused
+/// (the pinned tree truncated its length with `as u32`: heap overflow for sized elements, wrong len for ZSTs), and at
+/// len == u32::MAX push / reserve / extend must report an error while pop still works.
+fn valvec32_limits(cx: &mut Ctx) {
+    let cell = "ValVec32<()> at u32::MAX";
+    cx.sum.eval(cell, "valvec32_limits", true);
+    cx.sum.cell_status(cell, "S-only");
+    let cj = json!({"cell": "valvec32_limits"});
+    let r = guarded(|| -> Option<String> {
+        let n: usize = (1usize << 32) + 3;
+        // a slice of zero-sized elements occupies no memory, whatever its length
+        let big: &[()] = unsafe { std::slice::from_raw_parts(std::ptr::NonNull::<()>::dangling().as_ptr(), n) };
+        let mut v: ValVec32<()> = ValVec32::new();
+        if v.extend_from_slice_copy(big).is_ok() { return Some(format!("extend_from_slice_copy of a slice of {} elements returned Ok, len() = {} (a Vec holds {})", n, v.len(), n)); }
+        if v.len() != 0 { return Some(format!("a refused extend_from_slice_copy changed len() to {}", v.len())); }
+        if v.extend_from_slice(big).is_ok() { return Some(format!("extend_from_slice of a slice of {} elements returned Ok, len() = {}", n, v.len())); }
+        if v.len() != 0 { return Some(format!("a refused extend_from_slice changed len() to {}", v.len())); }
+        let exact: &[()] = &big[..u32::MAX as usize];
+        if v.push(()).is_err() || v.len() != 1 { return Some("push of a zero-sized element refused".into()); }
+        if v.extend_from_slice_copy(exact).is_ok() { return Some(format!("1 + u32::MAX elements accepted, len() = {}", v.len())); }
+        if v.pop() != Some(()) { return Some("pop() lost the element".into()); }
+        if v.extend_from_slice_copy(exact).is_err() || v.len() != u32::MAX { return Some(format!("extend by exactly u32::MAX elements: len() = {}", v.len())); }
+        if v.push(()).is_ok() { return Some(format!("push at len == u32::MAX accepted, len() = {}", v.len())); }
+        if v.reserve(1).is_ok() { return Some("reserve(1) at len == u32::MAX accepted".into()); }
+        if v.reserve(0).is_err() { return Some("reserve(0) at len == u32::MAX refused".into()); }
+        if v.extend_from_slice_copy(&[()]).is_ok() || v.push_n_copy(1, ()).is_ok() { return Some("extend / push_n_copy at len == u32::MAX accepted".into()); }
+        if v.len() != u32::MAX || v.get(u32::MAX - 1).is_none() || v.get(u32::MAX).is_some() { return Some("len()/get() at len == u32::MAX disagree with a Vec".into()); }
+        if v.pop() != Some(()) || v.len() != u32::MAX - 1 { return Some("pop at len == u32::MAX".into()); }
+        if v.push(()).is_err() || v.len() != u32::MAX { return Some("push at len == u32::MAX - 1 refused".into()); }
+        v.clear(); if !v.is_empty() { return Some("clear()".into()); }
+        for _ in 0..3 { if v.push(()).is_err() { return Some("push of a zero-sized element refused".into()); } }
+        let c = v.clone(); if c.len() != 3 { return Some(format!("clone() of 3 zero-sized elements holds {}", c.len())); }
+        v.clear();
+        if v.push_n_copy(u32::MAX, ()).is_err() || v.len() != u32::MAX || v.push_n_copy(1, ()).is_ok() { return Some("push_n_copy to u32::MAX".into()); }
+        None
+    });
+    match r { Err(p) => cx.sum.fail(cell, None, cj, &format!("panicked: {}", p)), Ok(Some(d)) => cx.sum.fail(cell, None, cj, &d), Ok(None) => {} }
 }
 
 // ---------------------------------------------------------------------------------------------
@@ -800,12 +911,13 @@ fn gen_strings(r: &mut Rng, kind: u64) -> Vec<String> {
 fn run_one(cx: &mut Ctx, c: &Value) {
     let cap = c["cap"].as_u64().unwrap_or(0);
     match c["cell"].as_str().unwrap_or("") {
-        "ring" => ring_history(cx, cap, &parse_ops(&c["ops"]), true),
-        "fixed" => fixed_history(cx, cap, &parse_ops(&c["ops"]), true),
-        "fastvec" => fastvec_history(cx, cap, &parse_ops(&c["ops"]), true),
+        "ring" => ring_history(cx, cap, &parse_ops(&c["ops"]), Coq::Always),
+        "fixed" => fixed_history(cx, cap, &parse_ops(&c["ops"]), Coq::Always),
+        "fastvec" => fastvec_history(cx, cap, &parse_ops(&c["ops"]), Coq::Always),
+        "valvec32_limits" => valvec32_limits(cx),
         "str" => { let strs: Vec<String> = c["strs"].as_array().map(|a| a.iter().map(|s| s.as_str().unwrap_or("").to_string()).collect()).unwrap_or_default();
                    str_case(cx, c["kind"].as_u64().unwrap_or(0), &strs, c["mode"].as_u64().unwrap_or(0)) }
-        t => vec_cell(cx, t, cap, &parse_ops(&c["ops"])),
+        t => vec_cell(cx, t, cap, &parse_ops(&c["ops"]), Coq::Always),
     }
 }
 
@@ -814,8 +926,14 @@ pub fn run(args: &Args) {
     let mut cx = Ctx {
         sum: Summary::new("C10", "operation histories (4..60 ops) on every container the property names, element type = drop-counting handle (per-id live-instance count compared with the shadow container after every operation and after Drop) or u8/u64 for the Copy/SIMD paths; initial capacities 0,1,2,3,4,7,8,9,16; ring histories start by rotating head to a chosen offset, bulk sizes are chosen to exactly fill / overshoot by one / straddle the wrap point, growth while wrapped is counted; vector indices at 0, len-1, len, len+1; string sets with duplicates, shared prefixes/suffixes, empty strings, NUL bytes, multi-byte UTF-8, lengths at the fixed limit; after every operation len/front/back/as_slice/get (incl. two indices past the end) are compared with VecDeque/Vec; non-trivial = history of >= 3 operations or >= 2 strings"),
         shards: CoqShards::new(HEADER, 150),
-        budget: if args.thorough { 9000 } else { 1200 },
+        budgets: Default::default(),
     };
+    // shares of the Coq budget (quick: 1500 cases in total), per M+S cell
+    let k = if args.thorough { 6 } else { 1 };
+    for (c, n) in [("AutoGrowCircularQueue", 750), ("FixedCircularQueue", 100), ("FastVec<El>", 150), ("ValVec32<El>", 120), ("ValVec32<u64>", 80),
+                   ("FastVec<u64>", 80), ("FastVec<u8>", 80), ("SortableStrVec", 80), ("FixedLenStrVec", 60)] {
+        cx.budgets.insert(c, (0, n * k));
+    }
     for c in ["AutoGrowCircularQueue", "FixedCircularQueue", "FastVec<El>"] { cx.sum.cell_status(c, "M+S"); }
     let mut rng = Rng::new(args.seed);
     if let Some(f) = &args.replay {
@@ -846,10 +964,8 @@ pub fn run(args: &Args) {
             for code in 0..total {
                 let mut x = code; let mut ops = vec![];
                 for _ in 0..l { ops.push(alphabet[x % 5].clone()); x /= 5; }
-                // keep the Coq budget for the generated family: only every 7th enumerated history is replayed in Coq
-                let save = cx.budget; if code % 7 != 0 { cx.budget = 0; }
-                ring_history(&mut cx, cap0, &ops, false);
-                cx.budget = save;
+                // keep the Coq budget for the generated family: only every 12th enumerated history is replayed in Coq
+                ring_history(&mut cx, cap0, &ops, if code % 12 == 0 { Coq::Budget } else { Coq::Never });
             }
         }
     }
@@ -860,33 +976,33 @@ pub fn run(args: &Args) {
         let cap0 = CAPS[(i % 9) as usize];
         let ops = gen_ring_ops(&mut rng, cap0);
         if i < 2 { cx.sum.sample(json!({"ring_cap": cap0, "ops": ops.iter().take(10).collect::<Vec<_>>()})); }
-        ring_history(&mut cx, cap0, &ops, false);
+        ring_history(&mut cx, cap0, &ops, Coq::Budget);
         let n = [1u64, 2, 3, 4, 7, 8, 9, 16][(i % 8) as usize];
         let ops = gen_fixed_ops(&mut rng, n);
-        fixed_history(&mut cx, n, &ops, false);
+        fixed_history(&mut cx, n, &ops, Coq::Budget);
         let ops = gen_vec_ops(&mut rng, &vec_all, false);
         if i < 1 { cx.sum.sample(json!({"fastvec_cap": cap0, "ops": ops.iter().take(10).collect::<Vec<_>>()})); }
-        fastvec_history(&mut cx, cap0, &ops, false);
+        fastvec_history(&mut cx, cap0, &ops, Coq::Budget);
         if i % 2 == 0 {
             let ops = gen_vec_ops(&mut rng, &[0, 1, 2, 3, 4, 5, 6, 7, 7, 8, 9, 10, 13, 2, 3], true);
-            vec_cell(&mut cx, "fastvec_u64", cap0, &ops);
+            vec_cell(&mut cx, "fastvec_u64", cap0, &ops, Coq::Budget);
             let ops = gen_vec_ops(&mut rng, &[0, 1, 2, 3, 4, 4, 5, 6, 7, 7, 8, 9, 10, 13, 2, 3], true);
-            vec_cell(&mut cx, "fastvec_u8", cap0, &ops);
+            vec_cell(&mut cx, "fastvec_u8", cap0, &ops, Coq::Budget);
             let ops = gen_vec_ops(&mut rng, &[0, 0, 1, 5, 7, 8, 9, 10, 11], false);
-            vec_cell(&mut cx, "valvec32_el", cap0, &ops);
+            vec_cell(&mut cx, "valvec32_el", cap0, &ops, Coq::Budget);
             let ops = gen_vec_ops(&mut rng, &[0, 0, 1, 5, 7, 8, 9, 10, 11, 16], true);
-            vec_cell(&mut cx, "valvec32_u64", cap0, &ops);
+            vec_cell(&mut cx, "valvec32_u64", cap0, &ops, Coq::Budget);
             let ops = gen_vec_ops(&mut rng, &[0, 0, 0, 1, 5, 8, 9, 12], false);
-            vec_cell(&mut cx, "cachevec_el", cap0, &ops);
-            vec_cell(&mut cx, "cachevec_u8", cap0, &ops);
+            vec_cell(&mut cx, "cachevec_el", cap0, &ops, Coq::Budget);
+            vec_cell(&mut cx, "cachevec_u8", cap0, &ops, Coq::Budget);
             let ops = gen_vec_ops(&mut rng, &[0, 0, 0, 1, 9], false);
-            vec_cell(&mut cx, "bumpvec_el", cap0.max(1), &ops);
+            vec_cell(&mut cx, "bumpvec_el", cap0.max(1), &ops, Coq::Budget);
             let ops = gen_vec_ops(&mut rng, &[0, 0, 9], false);
-            vec_cell(&mut cx, "layoutvec_u64", cap0, &ops);
+            vec_cell(&mut cx, "layoutvec_u64", cap0, &ops, Coq::Budget);
         }
         if i % 8 == 0 {
             let ops = gen_vec_ops(&mut rng, &[0, 0, 1, 4, 5, 6, 7, 8, 9, 12, 13, 14, 15], i % 16 == 0);
-            vec_cell(&mut cx, "mmapvec_u64", cap0, &ops);
+            vec_cell(&mut cx, "mmapvec_u64", cap0, &ops, Coq::Budget);
         }
         let kind = i % 13;
         let strs = gen_strings(&mut rng, kind);
@@ -898,6 +1014,7 @@ pub fn run(args: &Args) {
         let strs = vec!["head".to_string(), "x".repeat(l), "tail".to_string()];
         str_case(&mut cx, kind, &strs, 0);
     }
+    valvec32_limits(&mut cx);
     cx.sum.dist_max("coq_cases", cx.shards.len() as u64);
     let sh = cx.shards.write(&args.out);
     cx.sum.write(&args.out, sh);
